@@ -2,6 +2,7 @@ package vc
 
 import (
 	"fmt"
+	"sort"
 	"go/ast"
 	"go/types"
 	"strings"
@@ -503,5 +504,80 @@ func (p *Program) OverridesAllScan(typeName, field string) []string {
 			bad = append(bad, fmt.Sprintf("%s.%s is promoted from the embedded %s: its error is not translated", typeName, m.Name(), field))
 		}
 	}
+	return bad
+}
+
+// DeterministicScan: no function of the named package (closures included)
+// iterates over a map, selects over channels, starts a goroutine or calls into
+// the clock, a random source or the process environment - the syntactic
+// sources of run-to-run variation in a single-threaded generator.
+func (p *Program) DeterministicScan(pkgName string) []string {
+	var bad []string
+	banned := func(fn *ssa.Function) string {
+		if fn == nil || fn.Pkg == nil {
+			return ""
+		}
+		path := fn.Pkg.Pkg.Path()
+		switch path {
+		case "time":
+			if fn.Name() == "Now" || fn.Name() == "Since" || fn.Name() == "Until" {
+				return "time." + fn.Name()
+			}
+		case "math/rand", "math/rand/v2", "crypto/rand":
+			return path + "." + fn.Name()
+		case "os":
+			switch fn.Name() {
+			case "Getenv", "Environ", "LookupEnv", "Hostname", "Getpid", "Getwd", "Getuid", "ExpandEnv":
+				return "os." + fn.Name()
+			}
+		}
+		return ""
+	}
+	var visit func(fn *ssa.Function)
+	seen := map[*ssa.Function]bool{}
+	visit = func(fn *ssa.Function) {
+		if seen[fn] {
+			return
+		}
+		seen[fn] = true
+		name := p.FuncName(fn)
+		for _, b := range fn.Blocks {
+			for _, in := range b.Instrs {
+				switch x := in.(type) {
+				case *ssa.Range:
+					if _, isMap := x.X.Type().Underlying().(*types.Map); isMap {
+						bad = append(bad, fmt.Sprintf("%s iterates over a map at %s (iteration order varies from run to run)", name, p.Prog.Fset.Position(x.Pos())))
+					}
+				case *ssa.Select:
+					bad = append(bad, name+" selects over channels")
+				case *ssa.Go:
+					bad = append(bad, name+" starts a goroutine")
+				case ssa.CallInstruction:
+					if b := banned(x.Common().StaticCallee()); b != "" {
+						bad = append(bad, name+" calls "+b)
+					}
+				}
+			}
+		}
+		for _, a := range fn.AnonFuncs {
+			visit(a)
+		}
+	}
+	found := false
+	for _, pkg := range p.Pkgs {
+		if pkg.Pkg.Name() != pkgName {
+			continue
+		}
+		found = true
+		for _, m := range pkg.Members {
+			if fn, ok := m.(*ssa.Function); ok {
+				visit(fn)
+			}
+		}
+	}
+	if !found {
+		return []string{"no package " + pkgName + " under verification"}
+	}
+	sort.Strings(bad)
 	return bad
 }
